@@ -49,6 +49,7 @@ func declMatrix() []declCase {
 	add("enum option info", "enum Status {\n  option ACTIVE {\n    info.color = \"red\"\n  }\n}\n")
 	add("enum info fields and option info", "enum Status {\n  info color {\n    label = \"Color\"\n  }\n  info shape {\n    label = \"Shape\"\n  }\n  option ACTIVE {\n    info.color = \"red\"\n    info.shape = \"round\"\n  }\n  option INACTIVE {\n    info.color = \"blue\"\n  }\n}\n")
 	add("object nested object", "object Foo {\n  field x string\n\n  object Bar {\n    field x string\n  }\n}\n")
+	add("README inline array example", "object Foo {\n  field bars array {\n    field barId key:id62\n  }\n}\n")
 	add("object inline named", "object Foo {\n  field bars array:object {\n    object.name = \"Bar\"\n    field barId key:id62\n  }\n}\n")
 	add("object inline depth 3", "object Foo {\n  field a object {\n    field b object {\n      field c oneof {\n        option d object {\n          field e enum {\n            option X\n          }\n        }\n      }\n    }\n  }\n}\n")
 	add("object anyMember", "object Foo {\n  anyMember = [\"foo\"]\n  field x string\n}\n")
